@@ -164,6 +164,8 @@ func c05Pool() []any {
 		lm(map[string]any{"k": "a", "v": "s1"}),
 		lm(map[string]any{"name": "a", "v": map[string]any{"z": "s1"}}),
 		lm(map[string]any{"name": "a", "v": "s1"}, map[string]any{"name": "c", "v": "s1"}, map[string]any{"name": "b"}),
+		lm(map[string]any{"port": int64(1000620000), "v": "s1"}, map[string]any{"port": int64(2147483647), "v": "s2"}),
+		lm(map[string]any{"port": int64(1000620000), "v": "s2"}),
 		// lists of objects under field names that are NOT merge keys, with repeated values (plain lists: replaced as a whole)
 		lm(map[string]any{"type": "Resource", "v": "cpu"}, map[string]any{"type": "Resource", "v": "memory"}, map[string]any{"type": "Pods", "v": "qps"}),
 		lm(map[string]any{"type": "Resource", "v": "cpu"}, map[string]any{"type": "Pods", "v": "qps"}),
